@@ -3,6 +3,7 @@ package rules
 import (
 	b32 "encoding/base32"
 	"fmt"
+	"os"
 	"go/token"
 	"go/types"
 	"strings"
@@ -278,6 +279,9 @@ func C07(p *an.Prog, r *an.Report) {
 		for _, ret := range flow.OkReturns(fn) {
 			sl := &an.Slicer{P: p, Root: fn, Through: an.AllArgs, MaxDepth: 8}
 			for _, l := range sl.Leaves(ret.Results[0]) {
+				if os.Getenv("C07DEBUG") != "" {
+					fmt.Println("LEAF", l.String(), l.Via)
+				}
 				if l.Kind == an.LParam && l.Param == 0 {
 					parts := strings.Split(strings.TrimPrefix(l.Path, "."), ".")
 					covered[parts[0]] = true
